@@ -220,6 +220,46 @@ def ensure_built():
     return info
 
 
+def dep_closure(target):
+    """transitive .vo dependencies of a .vo target, read from coq/.Makefile.d (written by coq_makefile's coqdep run)"""
+    deps = {}
+    try:
+        for line in open(os.path.join(COQ, '.Makefile.d')):
+            if ':' not in line:
+                continue
+            lhs, rhs = line.split(':', 1)
+            tg = [t for t in lhs.split() if t.endswith('.vo')]
+            if not tg:
+                continue
+            deps.setdefault(tg[0], set()).update(d for d in rhs.split() if d.endswith('.vo'))
+    except OSError:
+        return None
+    seen, todo = set(), [target]
+    while todo:
+        t = todo.pop()
+        if t in seen:
+            continue
+        seen.add(t)
+        todo.extend(deps.get(t, ()))
+    return seen
+
+
+def relevant_failures(pid, failures):
+    """the build failures that concern property pid: translator / driver failures always, a Coq file only when the
+    property's statement file or the extraction depends on it; unparsed failures (empty list) count as relevant"""
+    if not failures:
+        return [{'stage': 'make', 'error': 'the build failed without a located error'}]
+    closure = None
+    a, b = dep_closure('Properties/%s.vo' % pid), dep_closure('Extract.vo')
+    if a is not None and b is not None:
+        closure = a | b
+    out = []
+    for f in failures:
+        if f.get('stage') != 'coq' or closure is None or (f.get('file', '')[:-2] + '.vo') in closure:
+            out.append(f)
+    return out
+
+
 def main():
     ap = argparse.ArgumentParser()
     ap.add_argument('pid')
@@ -235,9 +275,15 @@ def main():
     ctx = Ctx(pid, tier, seed)
     ctx.build = ensure_built()
     if not ctx.build['ok']:
-        # the tie between model and source (translator / proofs over Gen / extraction) no longer checks
-        ctx.violations.append({'kind': 'build-broken', 'found_input': False,
-                               'replay': {'build_failures': ctx.build['failures']}})
+        # the tie between model and source (translator / proofs over Gen / extraction) no longer checks - as far as this
+        # property is concerned: a Coq file that fails counts only when Properties/<pid>.v or the extracted models depend on it
+        rel = relevant_failures(pid, ctx.build['failures'])
+        if rel:
+            ctx.violations.append({'kind': 'build-broken', 'found_input': False, 'replay': {'build_failures': rel}})
+        else:
+            ctx.build = dict(ctx.build, ok=True, notes=ctx.build.get('notes', []) + ['build failures outside the dependencies of this property: %s' %
+                                                                                  sorted(set(f.get('file', f.get('stage')) for f in ctx.build['failures']))],
+                             failures=[])
     try:
         rc = mod.run(ctx)
     except Exception as e:
